@@ -13,8 +13,8 @@ SKELETONS = [
     ("host", "http://a.", ".x.fr:8080/p"),
     ("ipv4", "http://192.168.0.", ":80/p"),
     ("ipv6", "http://[::1]:", "/p"),
-    ("ipv6-hex", "http://[2001:db8::", "]:80/p"),
-    ("ipv6-v4", "http://u@[::", ".2.3.4]/p"),
+    ("ipv6-hex", "http://[2001:db8::1]:8", "/p"),
+    ("ipv6-v4", "http://u@[::1.2.3.4]", "/p?q"),
     ("localhost", "http://localhost", "/p?q"),
     ("port", "http://x.fr:", "/a"),
     ("query", "http://x.fr/a?", "#"),
